@@ -247,7 +247,8 @@ pub fn build(start: &Start) -> Document {
             }
         }
         d.set("List", rs);
-        let id = b.add(d);
+        // every third shape is a stream: its dictionary is a container of references too (/SMask, /Resources of a form)
+        let id = if refs.len() % 3 == 2 { b.add_stream(d, b"% extra stream\n".to_vec(), false) } else { b.add(d) };
         if *anchor {
             anchored.push(Object::Reference(id));
         }
@@ -555,6 +556,16 @@ fn frame_t(
             map.insert(*oid, *nid);
         }
     }
+    // objects without a marker (the cross-reference stream a reload leaves in the document): renumbering keeps the
+    // relative order of everything but pages, so they correspond in ascending order
+    let unmarked = |d: &Document| -> Vec<ObjectId> { d.objects.iter().filter(|(_, o)| marker(o).is_none()).map(|(id, _)| *id).collect() };
+    let (ub, ua) = (unmarked(before), unmarked(after));
+    let renumbered = map.iter().any(|(a, b)| a != b);
+    if renumbered && ub.len() == ua.len() {
+        for (b, a) in ub.iter().zip(ua.iter()) {
+            map.entry(*b).or_insert(*a);
+        }
+    }
     for oid in &reach {
         let bo = &before.objects[oid];
         let Some(m) = marker(bo) else { continue };
@@ -845,7 +856,17 @@ pub fn check(case: &Case) -> Verdict {
                     None => no_panic("renumber_objects", || st.doc.renumber_objects())?,
                     Some(s) => no_panic("renumber_objects_with", || st.doc.renumber_objects_with(1 + *s % 50))?,
                 }
-                frame(&before, &st.doc, &step, &|_, o| Some(o.clone()), &no_exempt, false, "reachable-altered")?;
+                let fr = frame(&before, &st.doc, &step, &|_, o| Some(o.clone()), &no_exempt, false, "reachable-altered");
+                if fr.is_err() && std::env::var("VERIF_C11_DEBUG").is_ok() {
+                    for (tag, d) in [("before", &before), ("after", &st.doc)] {
+                        eprintln!("--- {} max_id={} trailer={:?}", tag, d.max_id, d.trailer);
+                        for (id, o) in &d.objects {
+                            eprintln!("{:?}: {}", id, crate::engine::truncate(&format!("{:?}", o), 300));
+                        }
+                        eprintln!("bookmarks: {:?}", d.bookmark_table.iter().map(|(k, b)| (*k, b.page)).collect::<Vec<_>>());
+                    }
+                }
+                fr?;
             }
             Op::Compress | Op::Decompress => {
                 match op {
